@@ -231,9 +231,10 @@ def apply_rewrites(ex, rules):
             new, n = re.subn(r['pattern'], r['repl'], e['text'], flags=re.M)
             total += n
             e['text'] = new
-        if total != r['count']:
-            raise ExtractError('rewrite rule %s fired %d times, must fire exactly %d'
-                               % (r['id'], total, r['count']))
+        lo, hi = (r['count'], r['count']) if not isinstance(r['count'], list) else r['count']
+        if not lo <= total <= hi:
+            raise ExtractError('rewrite rule %s fired %d times, must fire %s times'
+                               % (r['id'], total, 'exactly %d' % lo if lo == hi else 'between %d and %d' % (lo, hi)))
         fired.append({'id': r['id'], 'count': total, 'why': r.get('why', ''),
                       'pattern': r['pattern'], 'repl': r['repl']})
     return fired
